@@ -131,6 +131,9 @@ fn part_a(sh: &mut Shard, case: u64, rng: &mut Rng) {
     };
     sh.case(Some(fnv_mix(fnv_mix(fnv_mix(case, kind), wire_wkc as u64), expect.map_or(9, |e| e.map_or(8, |w| w as u64)))));
     sh.count(&format!("A.cmd.{}", cmd.unwrap_or(0)));
+    if sh.wants_sample() {
+        sh.sample(json!({"scenario": scenario, "wire_wkc": wire_wkc, "result": format!("{out:?}").chars().take(120).collect::<String>()}));
+    }
     sh.count(&format!("A.wire_wkc.{wire_wkc}"));
     let expected = match expect {
         None => Some(1u16),
